@@ -29,6 +29,11 @@
 (* ReachSmall is what the algorithm guarantees; unconditional Reach is     *)
 (* what the property asks whenever some block position could serve the     *)
 (* site (Servable) - see MCThunks for how the two are used.                *)
+(*                                                                         *)
+(* Targets OUTSIDE the primary part (custom-named executable sections,     *)
+(* .init/.fini, over- and under-aligned .text parts, .plt.got) and the     *)
+(* estimate the code uses for them (compute_non_primary_text_size; here    *)
+(* only the opaque prefix `Bases`) are the subject of ThunksParts.tla.     *)
 (***************************************************************************)
 EXTENDS Integers, Sequences, FiniteSets
 
